@@ -44,9 +44,9 @@ def run_diff(args):
     """a stored diff replayed on the current tree: ("skipped"|"ok"|"error", violations, undecided)"""
     prop, root, path = args
     from .__main__ import analyse
-    from .patching import patched_sources
+    from .patching import patched_sources, seeded_sources
     try:
-        src = patched_sources(path, root)
+        src = seeded_sources(os.path.dirname(path), root) if os.path.basename(path) == "patch.diff" else patched_sources(path, root)
     except Exception:
         src = None
     if src is None:
